@@ -134,6 +134,7 @@ const (
 	strokeBlue
 	strokeBlueHalf
 	strokeRed // same colour as fillRed
+	strokeGradient
 )
 const (
 	joinMiter4 = iota
@@ -194,6 +195,8 @@ var styles = []styleSpec{
 	{name: "fill red + stroke blue alpha 0.5", fill: fillRed, stroke: strokeBlueHalf, width: 1},
 	{name: "fill red alpha 0.5 + stroke blue alpha 0.5", fill: fillRedHalf, stroke: strokeBlueHalf, width: 1},
 	{name: "fill gradient + stroke blue", fill: fillGradient, stroke: strokeBlue, width: 1},
+	{name: "stroke gradient B w2", stroke: strokeGradient, width: 2},
+	{name: "fill gradient + stroke gradient B w2 (two different gradients)", fill: fillGradient, stroke: strokeGradient, width: 2},
 	{name: "fill red + stroke blue EvenOdd", fill: fillRed, stroke: strokeBlue, width: 1, evenOdd: true},
 	{name: "fill red + stroke blue w2 miter-clip dashes [2 1]", fill: fillRed, stroke: strokeBlue, width: 2, join: joinMiterClip, dash: 1},
 }
@@ -205,6 +208,14 @@ func mkGradient() *canvas.LinearGradient {
 	g := canvas.NewLinearGradient(gradStart, gradEnd)
 	g.Add(0, gradC0)
 	g.Add(1, gradC1)
+	return g
+}
+
+// a second gradient, other end points and stops
+func mkGradientB() *canvas.LinearGradient {
+	g := canvas.NewLinearGradient(canvas.Point{X: 30, Y: 2}, canvas.Point{X: 4, Y: 20})
+	g.Add(0, color.RGBA{0, 160, 60, 255})
+	g.Add(1, color.RGBA{200, 0, 120, 255})
 	return g
 }
 
@@ -231,6 +242,8 @@ func (s styleSpec) apply(ctx *canvas.Context) {
 		ctx.SetStrokeColor(colBlueHalf)
 	case strokeRed:
 		ctx.SetStrokeColor(colRed)
+	case strokeGradient:
+		ctx.SetStrokeGradient(mkGradientB())
 	}
 	ctx.SetStrokeWidth(s.width)
 	ctx.SetStrokeCapper([]canvas.Capper{canvas.ButtCap, canvas.RoundCap, canvas.SquareCap}[s.cap])
